@@ -174,3 +174,8 @@ def run(ctx):
         ctx.extra["model_drift_first"] = drift
         ctx.notes.append("detailed model and code disagree (model drift): exhaustive TLC result does not transfer; verdict rests on the exploration of the real code")
     ctx.trusted += ["harness/vsched.c (coroutine scheduler)", "TLC", "gcc __atomic builtins as sequentially consistent"]
+
+
+def replay(ctx, rp):
+    from checks import schedreplay
+    return schedreplay.replay_cmd(ctx, rp, "C07", {"sched_ring": dict(src=["sched_ring.c", "vsched.c"], trace=("Lin_Trace", "Lin_Trace.cfg"))})
